@@ -14,4 +14,5 @@ for id in "$@"; do
   res="$res $id:$rc"
 done
 git -C /repo checkout -- .
+/verif/check build   # never leave a harness binary built against a changed tree behind
 echo "$SID =>$res" >> /verif/seeded/results.txt
